@@ -34,14 +34,18 @@ def confirm(d):
     patch = os.path.join(d, "patch.diff")
     res = {"applies": False, "builds": False, "tests_pass": False, "demo_patched": None, "demo_clean": None}
     tag = "c%d" % os.getpid()
-    wt, err = worktree(tag, patch)
-    if not wt:
-        res["error"] = err
-        return res
+    wt, err = worktree(tag, None)
     try:
-        res["applies"] = True
+        # copy the build cache first, apply the patch afterwards: cargo decides freshness by mtime
         if os.path.isdir("/repo/target"):
-            sh("cp -r /repo/target %s/target" % wt)
+            sh("cp -a /repo/target %s/target" % wt)
+        time.sleep(1.1)
+        r = sh("git -C %s apply %s" % (wt, patch))
+        if r.returncode:
+            res["error"] = r.stderr
+            return res
+        sh("git -C %s diff --name-only | xargs -r touch" % wt, cwd=wt)
+        res["applies"] = True
         r = sh("cargo build --offline 2>&1 | tail -3", cwd=wt)
         res["builds"] = os.path.exists(wt + "/target/debug/resynth") and "error" not in r.stdout
         r = sh("cargo test --workspace --no-fail-fast --offline 2>&1 | grep -E '^test result|FAILED|panicked|error(\\[|:)'", cwd=wt)
@@ -52,7 +56,9 @@ def confirm(d):
         r = sh("bash %s %s" % (os.path.join(d, "demo.sh"), wt), timeout=600)
         res["demo_patched"] = r.returncode
         res["demo_patched_tail"] = (r.stdout + r.stderr)[-600:]
-        sh("git -C %s checkout -- . && cargo build --offline" % wt, cwd=wt)
+        time.sleep(1.1)
+        sh("git -C %s diff --name-only > /tmp/.seed_touch_%s; git -C %s checkout -- . && xargs -r touch < /tmp/.seed_touch_%s; rm -f /tmp/.seed_touch_%s; cargo build --offline"
+           % (wt, tag, wt, tag, tag), cwd=wt)
         r = sh("bash %s %s" % (os.path.join(d, "demo.sh"), wt), timeout=600)
         res["demo_clean"] = r.returncode
     finally:
